@@ -7,7 +7,7 @@ META = {
     "driver_id": "Edit",
     "coq_targets": ["Props/C09.vo", "Extract/Extract_Edit.vo"],
     "technique": 'Coq invariant / refinement proofs over the executable edit-machine model + step-by-step differential correspondence of the extracted model with the implementation + direct oracle on the implementation',
-    "level_text": 'Proved in Coq about the executable model (Props/C09.v, all closed under the global context): C09_iou_of_spec (the value the edge annotator computes is |A n B| / |A u B| for the duplicate-free masks A, B of the two endpoints, each taken in its own time frame - frames need not be adjacent -, 0 when they do not meet, with |A u B| + |A n B| = |A| + |B|); the edge half iou_fresh of W_fresh (every edge stores iou_of of the current array) is preserved by each basic action under its documented precondition: C09_fresh_add_edge and C09_add_edge_value (the new edge stores the IoU of its endpoint masks whatever the caller passed), C09_fresh_upd_seg (all edges into or out of the repainted node are recomputed, the others keep valid values), C09_fresh_add_node, C09_fresh_other (DeleteEdge, UpdateNodeAttrs, UpdateTrackIDs, DeleteNode). The bulk computation path (compute_iou over all edges) is not modelled: its agreement with the incremental path is checked by the harness oracle on every run, not proved. C09_run_edge_calls (every state reachable from a well-formed state by any sequence, of any length, of edge-level calls - add / delete edge with and without force, swap, track queries, fresh ids - satisfies the complete invariant WF: dictionaries, forest, track ids, lineage ids, lookups, label/node correspondence, fresh features; induction over the call list); C09_run_node_calls (the same reachability statement with UserAddNode and UserDeleteNode included, accepted or refused, each UserAddNode respecting its documented preconditions - integer time / track id, no caller-supplied lineage id, and with a segmentation a non-zero id and background pixels of its own frame; Proofs/EditWFNodeExample.v shows three accepted calls outside these preconditions that break the invariant); C09_sessions (from a well-formed state with an empty history, EVERY state reached along ANY sequence - of any length - of calls of the WHOLE public interface of the edit machine - edge, swap, node, attribute and stroke edits, undo, redo, queries - accepted or refused, satisfies the complete invariant WF; hypotheses: three configuration facts no call changes, and the documented per-call preconditions of UserAddNode / node calls without segmentation at the moment each call is made; strokes, edge calls, attribute updates, undo and redo have none); C09_paint and C09_run_paint_calls (every accepted stroke yields a well-formed state; every refused stroke too, the rolled-back one included); C09_user_actions_are_generated (the seven composite user actions of the model equal, for all arguments, the code translated on every run from the current user_actions/*.py); C09_sessions_from_construction (the start state need not be assumed well formed: for every valid raw solution - forest, labels and nodes one-to-one, fresh feature table, true oracle partitions - the state constructed by enabling the core features with recomputation is well formed, so every session over the whole interface from it stays well formed). C09_core_is_generated: one level further down, the queries, the node-id counter, Tracks.undo / redo and the seven basic actions with their inverses of the model equal the code translated on every run from solution_tracks.py, tracks.py, _track_annotator.py and actions/*.py (Gen/Core_gen.v; statement in Proofs/CoreTieBundle.v). Source tie: the regionprops and edge annotators of the model (incremental update and bulk compute) equal, for all arguments, the code translated on every run from _regionprops_annotator.py, _edge_annotator.py and _compute_ious.py (Gen/Annotators_gen.v; Proofs/AnnotatorsTie.v, 25 closed theorems); this closes the chain from the user actions through the basic actions down to the annotators.',
+    "level_text": 'Proved in Coq about the executable model (Props/C09.v, all closed under the global context): C09_iou_of_spec (the value the edge annotator computes is |A n B| / |A u B| for the duplicate-free masks A, B of the two endpoints, each taken in its own time frame - frames need not be adjacent -, 0 when they do not meet, with |A u B| + |A n B| = |A| + |B|); the edge half iou_fresh of W_fresh (every edge stores iou_of of the current array) is preserved by each basic action under its documented precondition: C09_fresh_add_edge and C09_add_edge_value (the new edge stores the IoU of its endpoint masks whatever the caller passed), C09_fresh_upd_seg (all edges into or out of the repainted node are recomputed, the others keep valid values), C09_fresh_add_node, C09_fresh_other (DeleteEdge, UpdateNodeAttrs, UpdateTrackIDs, DeleteNode). The bulk computation path (compute_iou over all edges) is not modelled: its agreement with the incremental path is checked by the harness oracle on every run, not proved. C09_run_edge_calls (every state reachable from a well-formed state by any sequence, of any length, of edge-level calls - add / delete edge with and without force, swap, track queries, fresh ids - satisfies the complete invariant WF: dictionaries, forest, track ids, lineage ids, lookups, label/node correspondence, fresh features; induction over the call list); C09_run_node_calls (the same reachability statement with UserAddNode and UserDeleteNode included, accepted or refused, each UserAddNode respecting its documented preconditions - integer time / track id, no caller-supplied lineage id, and with a segmentation a non-zero id and background pixels of its own frame; Proofs/EditWFNodeExample.v shows three accepted calls outside these preconditions that break the invariant); C09_sessions (from a well-formed state with an empty history, EVERY state reached along ANY sequence - of any length - of calls of the WHOLE public interface of the edit machine - edge, swap, node, attribute and stroke edits, undo, redo, queries - accepted or refused, satisfies the complete invariant WF; hypotheses: three configuration facts no call changes, and the documented per-call preconditions of UserAddNode / node calls without segmentation at the moment each call is made; strokes, edge calls, attribute updates, undo and redo have none); C09_paint and C09_run_paint_calls (every accepted stroke yields a well-formed state; every refused stroke too, the rolled-back one included); C09_user_actions_are_generated (the seven composite user actions of the model equal, for all arguments, the code translated on every run from the current user_actions/*.py); C09_sessions_from_construction (the start state need not be assumed well formed: for every valid raw solution - forest, labels and nodes one-to-one, fresh feature table, true oracle partitions - the state constructed by enabling the core features with recomputation is well formed, so every session over the whole interface from it stays well formed). C09_core_is_generated: one level further down, the queries, the node-id counter, Tracks.undo / redo and the seven basic actions with their inverses of the model equal the code translated on every run from solution_tracks.py, tracks.py, _track_annotator.py and actions/*.py (Gen/Core_gen.v; statement in Proofs/CoreTieBundle.v). Source tie: the regionprops and edge annotators of the model (incremental update and bulk compute) equal, for all arguments, the code translated on every run from _regionprops_annotator.py, _edge_annotator.py and _compute_ious.py (Gen/Annotators_gen.v; Proofs/AnnotatorsTie.v, 25 closed theorems); this closes the chain from the user actions through the basic actions down to the annotators. C09_sessions_from_any_construction: the same for a graph that arrives with managed features of its own - the constructor as the code runs it (Model/EditCtor.v construct_any: the id lookups filled by a scan of the supplied ids, every core feature the first node carries activated at face value, every other one computed) yields a well-formed state whenever the detected features are valid on all nodes (supplied_ok), for every combination of supplied and computed features, and every session from it stays well formed (Proofs/EditCtor.v; EditCtorExample.v shows that invalid supplied ids break it); tie: constructor correspondence on every generated raw solution (harness/ctor.py).',
     "level_note": 'Trusted: Coq kernel, extraction (ExtrOcamlBasic only), OCaml driver drv_Edit.ml, Python harness and oracles. Modelled, not verified: networkx DiGraph dict semantics, numpy indexing, skimage regionprops (symbolic: value = function of key, mask, spacing), psygnal. The theorems are about the hand-written model coq/Model/Edit.v; the tie to /repo is the step-by-step differential execution of the extracted model against the implementation on every run. Tied to the source in a second way: the history mechanism (action_history.py) and the seven composite user actions (user_actions/*.py) are re-translated on every run by fail-closed translators (harness/translate_history.py, translate_user_actions.py; closed idiom tables; runtime combinators Model/PyRt.v) and proved equal to the hand-written model for all arguments (Proofs/HistoryTie.v, UserActionsTie.v); trusted there: the idiom tables and combinators, and the stated conventions (get_time / successors on a missing node do not raise, StopIteration reported as KeyError, feature keys never None).',
     "design_ref": "DESIGN.md section 9 (C09)",
     "assumptions": ['the caller does not pass a lineage id to UserAddNode (outside its documented domain)', 'track_id and lineage_id features stay enabled during editing sessions', 'labels/ids are positive; times are frame indices within the array'],
@@ -19,8 +19,132 @@ META = {
 }
 
 
+def iou_scenarios(ctx, n):
+    """implementation-only oracle with the label values and array dtypes the edit machine does not generate:
+    node ids up to the maximum of uint8 / uint16 label arrays (also int32 / int64 with ids around 2^16 and
+    2^17), several cells per frame overlapping several cells of the next frame, edges between consecutive
+    frames and frame-skipping edges, isolated pairs that do not overlap. After construction with iou enabled,
+    after every stroke / undo / redo and after disable + enable, every edge's stored iou must equal
+    |A n B| / |A u B| of the two current masks (numpy on boolean masks)."""
+    import networkx as nx
+    import numpy as np
+    from funtracks.data_model import SolutionTracks
+    from funtracks.user_actions import UserUpdateSegmentation
+
+    rng = ctx.rng
+    out, stats = [], {"iou_scenarios": 0, "iou_steps": 0, "iou_edges_checked": 0, "iou_dtypes": {}}
+    for k in range(n):
+        dt = rng.choice([np.uint8, np.uint8, np.uint16, np.uint16, np.int32, np.int64, np.uint32])
+        # scipy.ndimage.find_objects allocates one slot per label value: ids stay below 2^17 (domain limit of the numeric kernel)
+        top = {np.uint8: 255, np.uint16: 65535, np.int32: 70000, np.uint32: 70000, np.int64: 131071}[dt]
+        pools = [list(range(max(1, top - 40), top + 1)), list(range(1, 40)),
+                 [x for x in (15, 16, 17, 31, 32, 33, 63, 64, 65, 127, 128, 129, 254, 255, 256, 257, 4095, 4096, 65535, 65536, 65537) if x <= top]]
+        T, H, W = rng.randint(3, 4), 8, 12
+        seg = np.zeros((T, H, W), dtype=dt)
+        g = nx.DiGraph()
+        used = set()
+        frames = []
+        for tm in range(T):
+            cells = []
+            cols = sorted(rng.sample(range(0, W - 2), rng.randint(2, 3)))
+            for j, c0 in enumerate(cols):
+                pool = rng.choice(pools)
+                cand = [x for x in pool if x not in used]
+                if not cand:
+                    continue
+                nid = rng.choice(cand)
+                used.add(nid)
+                r0 = rng.randint(0, 3)
+                c1 = min(W, c0 + rng.randint(2, 5))
+                region = np.zeros((H, W), dtype=bool)
+                region[r0:r0 + rng.randint(2, 5), c0:c1] = True
+                region &= seg[tm] == 0
+                if not region.any():
+                    used.discard(nid)
+                    continue
+                seg[tm][region] = nid
+                g.add_node(nid, time=tm)
+                cells.append(nid)
+            frames.append(cells)
+        for tm in range(T - 1):
+            for b in frames[tm + 1]:
+                if frames[tm] and rng.random() < 0.85:
+                    a = rng.choice(frames[tm])
+                    if g.out_degree(a) < 2:
+                        g.add_edge(a, b)
+        for tm in range(T - 2):   # frame-skipping edges
+            for b in frames[tm + 2]:
+                if g.in_degree(b) == 0 and frames[tm] and rng.random() < 0.6:
+                    a = rng.choice(frames[tm])
+                    if g.out_degree(a) < 2:
+                        g.add_edge(a, b)
+        if g.number_of_edges() == 0:
+            continue
+        tr = SolutionTracks(g, segmentation=seg, time_attr="time", ndim=3)
+        tr.enable_features(["iou"])
+        stats["iou_scenarios"] += 1
+        stats["iou_dtypes"][np.dtype(dt).name] = stats["iou_dtypes"].get(np.dtype(dt).name, 0) + 1
+        desc = {"scenario": k, "dtype": np.dtype(dt).name, "nodes": {int(x): int(g.nodes[x]["time"]) for x in g.nodes},
+                "edges": [[int(a), int(b)] for a, b in g.edges], "seg": np.asarray(seg).tolist()}
+
+        def check(label):
+            s_ = np.asarray(tr.segmentation)
+            for a, b in tr.graph.edges:
+                ma, mb = s_[tr.get_time(a)] == a, s_[tr.get_time(b)] == b
+                inter, union = int((ma & mb).sum()), int((ma | mb).sum())
+                want = inter / union if union else 0.0
+                got = tr.graph.edges[a, b].get("iou")
+                stats["iou_edges_checked"] += 1
+                if got is None or abs(float(got) - want) > 1e-12:
+                    return "after %s: edge (%d, %d) stores iou %s, the masks overlap in %d of %d pixels (%s)" % (label, a, b, got, inter, union, want)
+            return None
+
+        def stroke(value, tm, sl):
+            arr = np.asarray(tr.segmentation)
+            region = np.zeros(arr.shape[1:], dtype=bool)
+            region[sl] = True
+            groups = []
+            for ov in np.unique(arr[tm][region]):
+                if value == ov:
+                    continue
+                idx = np.nonzero(region & (arr[tm] == ov))
+                groups.append(((np.full(len(idx[0]), tm), *idx), int(ov)))
+            if not groups:
+                return
+            for px, _ in groups:
+                tr.set_pixels(px, value)
+            UserUpdateSegmentation(tr, value, groups, tr.get_track_id(value) if value in tr.graph else tr.get_next_track_id())
+
+        nodes = sorted(tr.graph.nodes)
+        grow = rng.choice(nodes)
+        steps = [("grow node %d" % grow, lambda: stroke(grow, tr.get_time(grow), (slice(2, 6), slice(rng.randint(0, 6), 12)))),
+                 ("undo", tr.undo), ("redo", tr.redo),
+                 ("disable / enable iou", lambda: (tr.disable_features(["iou"]), tr.enable_features(["iou"]))),
+                 ("erase two rows of frame 1", lambda: stroke(0, 1, (slice(3, 5), slice(0, 12)))),
+                 ("undo", tr.undo), ("redo", tr.redo), ("undo", tr.undo), ("undo", tr.undo)]
+        label = "construction"
+        try:
+            bad = check(label)
+            for label, fn in steps:
+                if bad:
+                    break
+                fn()
+                stats["iou_steps"] += 1
+                bad = check(label)
+        except Exception as e:  # noqa: BLE001
+            bad = "%s raised %s: %s" % (label, type(e).__name__, str(e)[:120])
+        if bad:
+            out.append({"what": "IoU with %s labels: %s" % (np.dtype(dt).name, bad), "input": desc, "signature": "C09:iou-direct"})
+    return out, stats
+
+
 def run(ctx):
-    return G.run_property(ctx, "C09", n_quick=400, n_thorough=6000, seg_p=1.0, toggles=0.15)
+    res = G.run_property(ctx, "C09", n_quick=400, n_thorough=6000, seg_p=1.0, toggles=0.15)
+    viol, stats = iou_scenarios(ctx, 40 if ctx.quick() else 500)
+    res["violations"] = list(res.get("violations", [])) + viol
+    res.setdefault("stats", {}).update(stats)
+    res["evaluations"] = res.get("evaluations", 0) + stats["iou_steps"]
+    return res
 
 
 def replay(ctx, payload):
